@@ -44,6 +44,8 @@ fn collapse<T>(o: &mut Option<Option<T>>) {
 ///   {"t": "enum", "n": name, "v": [{"n": variant name, "k": "unit" | "newtype" | "tuple" | "struct", "a": …}…]}
 /// A node may carry `"target": "str" | "bytes"`: the Deserialize side of that position is a BORROWED target (`&'de str`,
 /// `&'de [u8]`), which the model's `toTarget` does not describe (outside the grammar of the C04 theorems; counted).
+/// A node may carry `"de": T'`: its Deserialize side (what `from_type` and the reader see) is another type than its
+/// Serialize side (`&'de [u8]` without serde_bytes).
 /// Written ONCE per zoo type, by hand, beside the type; std types compose through the generic impls below.  The driver
 /// checks on every case that the model's `ser` / `toTraceTy` / `toTarget` evaluated on this description reproduce what
 /// the REAL derived impls did (recorded call stream, `from_type`, the `deserialize_*` / `visit_*` call log).
@@ -119,7 +121,7 @@ impl<'a> Describe for &'a str {
 /// `&'de [u8]` without serde_bytes: the std `Serialize` for slices issues a SEQUENCE of u8, `Deserialize` asks for bytes
 impl<'a> Describe for &'a [u8] {
     fn ty() -> Value {
-        json!({"t": "vec", "a": prim("u8"), "target": "bytes"})
+        json!({"t": "vec", "a": prim("u8"), "de": {"t": "bytes", "target": "bytes"}})
     }
 }
 impl<T: Describe> Describe for Option<T> {
@@ -178,6 +180,9 @@ impl<T: Describe> Describe for serde_arrow::utils::Item<T> {
 /// driver recomputes it with the Lean function and refuses a difference (`roundtrip/bridge/target-…`).  A `"target"`
 /// override (borrowed position) wins: such a type is outside the grammar.
 pub fn to_target(t: &Value) -> Value {
+    if let Some(de) = t.get("de") {
+        return to_target(de);
+    }
     if let Some(o) = t.get("target") {
         return o.clone();
     }
